@@ -16,6 +16,7 @@ func init() {
 		Cases: func(tier string) int { return tierN(tier, 1600, 80000) },
 		Rule: "case = one crash-free history with synchronous pruning (12-50 ops quick, up to 120 thorough; 1-10 keys; many commits without writes, set-then-remove, trees shrinking to empty, single and multi-version DeleteVersionsTo, LoadVersionForOverwriting, DeleteVersionsFrom+reload, reopenings with fresh caches and a different fast-index setting, flush thresholds 150..default, cache 0..1000). " +
 			"After EVERY step the raw storage is scanned with the independent decoder D: every retained version must be decodable from its root entry with all child links resolving (incl. the (v,1)->(v,0) rule) and contents equal to the model; every stored 's' entry must be reachable from a retained version (otherwise: leak); with the fast index enabled the raw 'f' entries and the label must describe exactly the latest version. " +
+			"Every 4th case then exports its latest version, imports it (plain or compressed) into a fresh store and continues there with a second planned history (commits, prunes, rollbacks, reopenings), audited after every step in the same way. " +
 			"distinct = hash(config, ops); non-trivial = >=1 successful deletion of versions that left a later version, and >=3 commits.",
 		Assumptions: []string{"decoder D (internal/codec) and model M are the trusted base; the audit does not use the reference tree R", "synchronous pruning, no crashes, no storage faults"},
 		Run: func(c *fw.Ctx) {
@@ -55,6 +56,55 @@ func init() {
 					break
 				}
 			}
+			// every 4th case goes on with an IMPORTED copy of its latest version: the store written by the
+			// importer (nodes of several versions, no older roots) must satisfy the same audit while the
+			// history continues with commits, prunes and rollbacks
+			if c.Index%4 == 1 && !e.Dead && len(c.Res.Violations) == 0 && e.M.Latest > 0 && e.M.Base == e.M.Latest {
+				v := e.M.Latest
+				if it, err := e.T.GetImmutable(v); err == nil {
+					compress := c.Index%8 == 1
+					if stream, err := exportStream(it, compress); err == nil {
+						cfg := pl.Cfg
+						cfg.Initial = 0
+						e2, err := v1x.NewEnv(c, cfg)
+						if err == nil {
+							defer e2.Close()
+							if err := importStream(e2.T, v, stream, compress); err != nil {
+								e2.Bad("audit|import|error", "import of version %d (%d nodes): %v", v, len(stream), err)
+							} else {
+								snap := e.M.Vers[v]
+								e2.M.Vers[v] = snap.Clone()
+								e2.M.First, e2.M.Latest, e2.M.Base, e2.M.Work = v, v, v, snap.Clone()
+								e2.M.Initial = 0
+								e2.R.Roots[v], e2.R.Hashes[v] = e.R.Roots[v], e.R.Hashes[v]
+								e2.R.Work, e2.R.Base, e2.R.Initial = e.R.Roots[v], v, 0
+								e2.AuditStorage(e2.Cfg.Fast)
+								p2 := *p
+								p2.MinOps, p2.MaxOps, p2.InvalidPct = 8, 25, 0
+								pl2 := v1x.MakePlanFrom(c.Rng, &p2, &v1x.Oracle{M: e2.M, R: e2.R}, pl.Universe)
+								for _, op := range pl2.Ops {
+									if op.Kind == "reopen" && op.Cfg != nil {
+										op.Cfg.Initial = 0
+									}
+									first := e2.M.First
+									out := e2.Apply(op, false)
+									if e2.Dead {
+										break
+									}
+									if op.Kind == "delto" && out.Err == nil && op.N >= first && first > 0 {
+										c.Obs("deletions_on_imported_store", 1)
+									}
+									e2.AuditStorage(e2.Cfg.Fast)
+									if len(c.Res.Violations) > 0 {
+										break
+									}
+								}
+								c.Obs("imported_stores_audited", 1)
+							}
+						}
+					}
+				}
+			}
 			c.Obs("steps", e.Step)
 			if len(e.M.Vers) > 0 && allEmpty(e) {
 				c.Obs("ended_all_empty", 1)
@@ -62,7 +112,7 @@ func init() {
 			c.Res.Nontrivial = dels >= 1 && saves >= 3
 		},
 		Floor: func(obs map[string]int, evals, nontrivial int) string {
-			if obs["raw_audits"] < 1000 || obs["deletions"] < 100 || obs["fast_audits"] < 100 {
+			if obs["raw_audits"] < 1000 || obs["deletions"] < 100 || obs["fast_audits"] < 100 || obs["imported_stores_audited"] < 20 || obs["deletions_on_imported_store"] < 20 {
 				return "too few audits / deletions observed"
 			}
 			return ""
